@@ -28,7 +28,8 @@ PrefixNames == <<"numeric", "single-quoted", "double-quoted", "parenthesised", "
 
 WhiteSeps == { <<32>>, <<9>>, <<10>>, <<11>>, <<12>>, <<13>>, <<160>>, <<0>> }
 CommentSep == <<47, 42, 42, 47>>
-Seps == WhiteSeps \cup {CommentSep}
+LongCommentSep == <<47, 42>> \o [i \in 1..36 |-> 97] \o <<42, 47>>       \* an inline comment longer than a token buffer
+Seps == WhiteSeps \cup {CommentSep, LongCommentSep}
 
 \* payload families: name, words
 WOR == <<111, 114>>
